@@ -308,6 +308,15 @@ func runReaderSeq(c *Ctx, i int64, seq []int, conc bool, trailing bool) {
 			c.Count("reader_resets", 1)
 		}
 	}
+	if !hung && conc {
+		// drain an abandoned concurrent Reader so that its pipeline goroutines and buffers are released
+		// (not judged: every judged call is part of the history above)
+		ep.src.Budget += 20000 + 10*len(ep.src.Data)
+		c.Watch("drain", func() {
+			defer func() { _ = recover() }()
+			_, _ = io.Copy(io.Discard, r)
+		})
+	}
 	c.Count("reader_sequences", 1)
 	t := ""
 	if trailing {
